@@ -128,8 +128,15 @@ class C15(Prop):
             "macho": ["for any s in macho.segments : (s.nsects > 100)", "for all s in macho.segments : (s.vmsize >= 0 and #_a >= 0)",
                       "for any seg in macho.segments : (for any sec in seg.sections : (sec.size > 100000000 or $_a))"],
         }[mod]
+        # module function calls whose first argument is undefined and whose later arguments take several
+        # evaluation steps: a timeout firing in a later argument must not be lost behind the undefined one
+        calls = ["math.max(uint32(filesize), filesize + 1 + 2 + 3) > 0", "math.min(uint8(filesize + 5), (filesize * 2) + (3 - 1)) == 0",
+                 "math.max(uint16(filesize), #_a + 1 + 1) > 0 or filesize > 0",
+                 "math.in_range(math.mean(filesize, 10), 0.0, 1.0 + 2.0 + 3.0)",
+                 "math.max(1 + 2, uint8(filesize)) > 0 or math.min(filesize + 1, uint8(filesize)) > 0"]
+        loops = loops + calls
         nr = rng.range(1, 3)
-        src = 'import "%s"\n' % mod
+        src = 'import "%s"\nimport "math"\n' % mod
         for i in range(nr):
             c = rng.choice(loops)
             if rng.chance(1, 3):
